@@ -734,7 +734,7 @@ def node_sexp(n: Any) -> str:
 		if n.sliced:
 			if len(keys) != 3 or not isinstance(keys[2], defs.Empty):
 				raise Unsupported('slice step')
-			lo, hi = ('none' if isinstance(k, defs.Empty) else node_sexp(k) for k in keys[:2])
+			lo, hi = ('empty' if isinstance(k, defs.Empty) else node_sexp(k) for k in keys[:2])
 			return f'( slice {node_sexp(n.receiver)} {lo} {hi} )'
 		if len(keys) != 1:
 			raise Unsupported('multi-key indexer')
@@ -836,8 +836,8 @@ def ast_sexp(n: ast.AST) -> str:
 		if isinstance(sl, ast.Slice):
 			if sl.step is not None:
 				raise Unsupported('slice step')
-			lo = 'none' if sl.lower is None else ast_sexp(sl.lower)
-			hi = 'none' if sl.upper is None else ast_sexp(sl.upper)
+			lo = 'empty' if sl.lower is None else ast_sexp(sl.lower)
+			hi = 'empty' if sl.upper is None else ast_sexp(sl.upper)
 			return f'( slice {ast_sexp(n.value)} {lo} {hi} )'
 		return f'( index {ast_sexp(n.value)} {ast_sexp(sl)} )'
 	if isinstance(n, ast.Call):
